@@ -85,9 +85,29 @@ def gen_c07(rng: random.Random, tier: str) -> dict:
     funcs = preempt.WORKER_FUNCS
     if rng.random() < 0.3:
         funcs = funcs + preempt.SCHED_FUNCS + preempt.SERVER_FUNCS
+    clients = [{'script': [{'op': 'compile', 'prog': prog}]}]
+    if topo['kind'] == 'detached' and rng.random() < 0.4:
+        # several compilations in flight, from one or two clients: each
+        # result() must return the output of its own task
+        clients = []
+        for ci in range(rng.choice([1, 2, 2])):
+            script, names = [], []
+            for k in range(rng.randint(1, 3)):
+                p = tasktree.gen_program(
+                    rng, max_nodes=rng.choice([4, 8, 15]),
+                    max_depth=rng.randint(2, 3),
+                    max_fanout=rng.randint(2, 4),
+                    payloads=rng.random() < 0.25,
+                    id_base=10000 * ci + 1000 * k)
+                script.append({'op': 'submit', 'as': f't{k}', 'prog': p})
+                names.append(f't{k}')
+            rng.shuffle(names)
+            for nm in names:
+                script.append({'op': 'result', 't': nm})
+            clients.append({'script': script})
     return {
         'topo': topo,
-        'clients': [{'script': [{'op': 'compile', 'prog': prog}]}],
+        'clients': clients,
         'policy': swarm_policy(rng, topo, funcs),
         'faults': [],
     }
